@@ -94,9 +94,13 @@ class InternalCompiler(Compiler):
         elif isinstance(expr, Symbol):
             return self.compile_symbol(qc, expr, dest, sym)
 
-        # 3. If expr is already been computed, return its index
-        elif expr in self.expqmap:
-            return self.expqmap[expr]
+        # 3. If expr is already been computed, return its index (or xor it into dest)
+        elif expr in self.expqmap and self.expqmap[expr] != dest:
+            if dest is None:
+                return self.expqmap[expr]
+
+            qc.cx(self.expqmap[expr], dest)
+            return dest
 
         # 4. Special mappings section
         # Add here special expressions mappings to QC
